@@ -23,7 +23,7 @@ RULE = ("dense: every (class x B x hermitian-flag x sorting function) combinatio
         "(thorough 1..40) drawn/enumerated per combination, spectra prescribed; sparse FE: mesh x physics x bc x "
         "standard/generalised x nmodes x shift-mode x format x sorter, random densities; sparse synthetic: class x B x "
         "nmodes x shift-mode; each case = 2-3 consecutive calls of one instance with changed matrices. distinct = "
-        "option combination x size class; non-trivial = n >= 2 and at least one pair judged on every clause")
+        "option combination x size class; non-trivial = first matrix has n >= 2 (all clauses are judged for every response)")
 EXHAUSTIVE = {"quick": False, "thorough": False}
 ASSUMPTIONS = [
     "pair residual judged by the normwise backward error ||A q - lam B q|| / ((||A||_F + |lam| ||B||_F) ||q||_2): "
@@ -45,8 +45,10 @@ ASSUMPTIONS = [
     "sparse: nmodes < n-1; FE pencils with a mass matrix that is zero on constrained dofs need rank(M) > ncv = "
     "max(2 nmodes+1, 20) for ARPACK to build its basis, meshes are chosen accordingly; the shift is never an eigenvalue; "
     "the reference spectrum is the dense spectrum of the free dofs (constrained dofs decouple)",
-    "a failure of the sparse selection clauses only that does not recur when the same instance is asked again with the same matrices is "
-    "recorded as inconclusive (ARPACK draws a random start vector), a recurring one is a violation",
+    "a failure of the two sparse selection clauses only that does not recur when the same instance is asked again with "
+    "the same matrices is recorded as inconclusive (ARPACK draws a random start vector); a recurring one is a violation; "
+    "a failure at a repeated call is named history/<clause> when a fresh instance conforms on the same matrices and "
+    "the long-lived one fails again",
     "selection: every returned value must match a distinct reference eigenvalue, and no reference eigenvalue that "
     "was not returned may be closer to sigma than the farthest returned one (beyond the eigenvalue tolerance, so ties at "
     "the cut are admissible either way). Not counted as a violation but counted separately: a further copy of a "
